@@ -1233,12 +1233,28 @@ def it(n):
 '''
 
 
+# deeper shapes than the depth-2 enumeration reaches (function bodies; each is tried under
+# the three schedules below): interrupts two blocks deep followed by more statements
+DEEP_SKELETONS = [
+    # loop-else with a conditional return followed by statements and a final return
+    "def f():\n    m(1)\n    for i in it(2):\n        m(3)\n    else:\n        if c(4):\n            m(5)\n            return m(6)\n        m(7)\n        if c(8):\n            return m(9)\n        m(10)\n        return m(11)\n    m(12)\nr = f()\n",
+    "def f():\n    while c(1):\n        m(2)\n    else:\n        if c(3):\n            return m(4)\n        m(5)\n        return m(6)\nr = f()\n",
+    # loop in a function: if-branch containing an inner if with continue/break, followed by statements
+    "def f():\n    for i in it(1):\n        if c(2):\n            if c(3):\n                m(4)\n                continue\n            else:\n                if c(5):\n                    break\n            m(6)\n            m(7)\n        else:\n            if c(8):\n                continue\n            m(9)\n        m(10)\n    return m(11)\nr = f()\n",
+    "class K:\n    def f(self):\n        while c(1):\n            if c(2):\n                if c(3):\n                    break\n                m(4)\n            elif c(5):\n                if c(6):\n                    continue\n                m(7)\n            m(8)\n        return m(9)\nr = K().f()\n",
+    # lone continue / bare return as the whole body of an if that has an else
+    "for i in it(1):\n    if c(2):\n        continue\n    else:\n        m(3)\n",
+    "def f():\n    if c(1):\n        return\n    else:\n        m(2)\nr = f()\n",
+    "def f():\n    for i in it(1):\n        if c(2):\n            continue\n        elif c(3):\n            m(4)\n        else:\n            m(5)\nr = f()\n",
+]
+
+
 def replay_skeleton(rp):
     import itertools
     import random
     from suites import replay_util as RU
     rnd = random.Random(rp.get("seed", 5))
-    progs = []
+    progs = list(DEEP_SKELETONS)
     for placement in ("module", "function", "method"):
         in_func = placement != "module"
         blocks = _blocks(2, False, in_func)
@@ -1255,7 +1271,7 @@ def replay_skeleton(rp):
     tried = 0
     opts = [("ast.unparse", "chain_call", "if_expr"), ("oneliner", "list", "short_circuit")]
     for src in progs:
-        for sched in (0x2AAAAAAA, 0x0F0F3355, 0x1B6DB6DB):
+        for sched in (0x2AAAAAAA, 0x0F0F3355, 0x1B6DB6DB, 0x15555555, 0x3FFFFFFF, 0x12492492):
             tried += 1
             rep = RU.replay_source(src, "same-globals", names=["trace", "r"], opts=opts, prelude=_PRELUDE.replace("SCHED", str(sched)))
             if rep.get("reproduced"):
